@@ -359,3 +359,72 @@ func forwardConsistent(info *types.Info, flow *eng.FlowGraph, body *ast.BlockStm
 	}
 	return false
 }
+
+// ruleAggSiblingCases: _max and _min are sibling implementations over the same inputs; the
+// sequences of type-switch case lists (which value representations are understood) must agree.
+func ruleAggSiblingCases(c *eng.Ctx) {
+	const rule = "AGG-SIBLING-CASES"
+	mx := c.Anchor(rule, "internal/planner.(*maxNode).Next")
+	mn := c.Anchor(rule, "internal/planner.(*minNode).Next")
+	if mx == nil || mn == nil {
+		return
+	}
+	type sw struct {
+		pos   token.Pos
+		cases []string
+	}
+	collect := func(fi *eng.FuncInfo) []sw {
+		var out []sw
+		ast.Inspect(fi.Decl.Body, func(m ast.Node) bool {
+			ts, ok := m.(*ast.TypeSwitchStmt)
+			if !ok {
+				return true
+			}
+			s := sw{pos: ts.Pos()}
+			for _, cl := range ts.Body.List {
+				cc := cl.(*ast.CaseClause)
+				if cc.List == nil {
+					continue
+				}
+				for _, e := range cc.List {
+					s.cases = append(s.cases, eng.ExprStr(e))
+				}
+			}
+			out = append(out, s)
+			return true
+		})
+		return out
+	}
+	a, b := collect(mx), collect(mn)
+	c.Check(len(a) == len(b), rule, "max/min:type-switch-count", mx.Decl.Pos(), "same number of type switches", fmt.Sprintf("_max has %d type switches, _min %d", len(a), len(b)))
+	for i := 0; i < len(a) && i < len(b); i++ {
+		inA := map[string]bool{}
+		for _, k := range a[i].cases {
+			inA[k] = true
+		}
+		inB := map[string]bool{}
+		for _, k := range b[i].cases {
+			inB[k] = true
+		}
+		var onlyA, onlyB []string
+		for k := range inA {
+			if !inB[k] {
+				onlyA = append(onlyA, k)
+			}
+		}
+		for k := range inB {
+			if !inA[k] {
+				onlyB = append(onlyB, k)
+			}
+		}
+		pos := a[i].pos
+		if len(onlyB) > 0 {
+			pos = a[i].pos
+		} else if len(onlyA) > 0 {
+			pos = b[i].pos
+		}
+		c.Check(len(onlyA) == 0 && len(onlyB) == 0, rule, fmt.Sprintf("max/min:type-switch#%d:same-cases", i+1), pos, "both handle "+strings.Join(a[i].cases, ","),
+			fmt.Sprintf("value representations handled by only one of the sibling aggregates — _max only: %v, _min only: %v: the other one answers null (and forgets what it had accumulated) for such a field", onlyA, onlyB))
+	}
+	c.Floor(rule, len(a), 2)
+}
